@@ -33,6 +33,11 @@ def main():
         d = ROOT / 'seeded' / sid
         meta = json.loads((d / 'meta.json').read_text())
         prop = meta['breaks_property']
+        if meta.get('superseded_by_fix'):
+            results[sid] = {'repo_head': head, 'applies': None, 'property': prop, 'caught': None,
+                            'superseded_by_fix': meta['superseded_by_fix']}
+            print(sid, 'superseded by fix', meta['superseded_by_fix'])
+            continue
         a = sh(f'git -C {REPO} apply {d / "patch.diff"}')
         if a.returncode:
             results[sid] = {'repo_head': head, 'applies': False, 'error': a.stderr.strip()[:300]}
@@ -68,7 +73,7 @@ def write_readme(results):
         first = 'missed by the first version, caught after strengthening' if m.get('note', '').startswith('MISSED') \
             else 'caught by the check as it stood'
         rows.append(f"| {p.name} | {m['breaks_property']} | {m['what_it_breaks']} | {m['needs_to_manifest']} | {first} | "
-                    f"{'caught' if r.get('caught') else ('does not apply' if r.get('applies') is False else 'MISSED')}: "
+                    f"{('superseded by /repo fix ' + r['superseded_by_fix']) if r.get('superseded_by_fix') else 'caught' if r.get('caught') else ('does not apply' if r.get('applies') is False else 'MISSED')}: "
                     f"{'; '.join(q)} |")
     txt = ['# Independently written property-breaking changes', '',
            'Each directory holds one change to oopt-gnpy written by a fresh sub-agent that was given only the text of one',
